@@ -179,7 +179,7 @@ func (tree *Tree[T]) Remove(pattern string, methods ...string) {
 	} else {
 		for _, m := range methods {
 			switch m {
-			case http.MethodOptions: // OPTIONS 不作任何操作
+			case http.MethodOptions, http.MethodHead, methodNotAllowed: // 自动生成的处理项不作任何操作
 			case http.MethodGet:
 				delete(child.handlers, http.MethodHead)
 				fallthrough
